@@ -322,7 +322,47 @@ var c15Lines = core.Mon(c15, "line-table", func(w *core.W, c *LineCase) {
 	if strings.HasSuffix(string(text), "\r\n") {
 		w.Count("crlf_at_end_texts")
 	}
+	// the same through the source object a parse hands back - whether the text was accepted or rejected, and whatever
+	// part of it the parser got to see before it gave up
+	var sc *formula.SourceCode
+	var perr error
+	if p, _ := core.Call(func() { sc, perr = hostParse(text, false) }); p || sc == nil {
+		return
+	}
+	if perr != nil {
+		w.Count("linetable_on_rejected_source")
+	} else {
+		w.Count("linetable_on_accepted_source")
+	}
+	for _, off := range sampleOffsets(len(text)) {
+		el, ec := directLineCol(text, off)
+		var p3 formula.Position
+		panicked, pv := core.Call(func() { p3 = formula.GetFileLineAndCharacterFromPosition(sc, off) })
+		if panicked || p3.Line != el || p3.Column != ec {
+			w.Violation("line-table", "C15/linetable-of-source", c, fmt.Sprintf("(%d,%d)", el, ec), fmt.Sprint(p3, pv),
+				fmt.Sprintf("offset %d through the SourceCode returned by ParseSourceCode (error: %v) for %q", off, perr, clipS(string(text), 80)))
+			return
+		}
+	}
+	if got, want := fmt.Sprint(formula.GetLineStarts(sc)), fmt.Sprint(formula.ComputeLineStarts(text)); got != want {
+		w.Violation("line-table", "C15/linestarts-of-source", c, want, got, fmt.Sprintf("GetLineStarts of the SourceCode returned for %q (error: %v)", clipS(string(text), 80), perr))
+	}
 })
+
+// sampleOffsets: every offset of short texts; first, last and a spread of offsets of long ones.
+func sampleOffsets(n int) []int {
+	var out []int
+	if n <= 256 {
+		for i := 0; i <= n; i++ {
+			out = append(out, i)
+		}
+		return out
+	}
+	for i := 0; i <= 64; i++ {
+		out = append(out, i, n-i, i*(n/64))
+	}
+	return out
+}
 
 // ReuseCase: texts of equal length written one after the other into ONE buffer.
 type ReuseCase struct {
